@@ -245,7 +245,7 @@ def run(ctx, only=None):
         fs0 = []
         if save and P['out_dir_base'] is not None and name is not None:
             ext = out_ext or '.fp.bz2'
-            cand = [(P['out_dir_base'] + '_complete', name + ext)] + [(P['out_dir_base'] + str(i), name + ext) for i in range(0, 7)]
+            cand = [(P['out_dir_base'] + '_complete', name + ext)] + [(P['out_dir_base'] + str(i), name + ext) for i in range(0, max(7, (lv if isinstance(lv, int) and lv > 0 else 0) + 2))]
             mode = rng.choice(['none', 'none', 'all', 'some'])
             target = [(P['out_dir_base'] + ('_complete' if lv == -1 else str(lv)), name + ext)] if (lv == -1 or not ai) else \
                 [(P['out_dir_base'] + str(i), name + ext) for i in range(lv + 1)]
